@@ -45,6 +45,14 @@ func Explore(w *World, cfg *Config, entry *ssa.Function, nWorkers, maxPaths, tim
 				return
 			}
 			defer solver.Close()
+			oneshot, err := smt.New(solverKind, timeoutMs)
+			if err != nil {
+				mu.Lock()
+				firstErr = err
+				mu.Unlock()
+				return
+			}
+			defer oneshot.Close()
 			if p := os.Getenv("GOSYMX_SMTLOG"); p != "" {
 				if f, err := os.Create(fmt.Sprintf("%s.%d", p, wid)); err == nil {
 					solver.Log = f
@@ -82,7 +90,7 @@ func Explore(w *World, cfg *Config, entry *ssa.Function, nWorkers, maxPaths, tim
 				started++
 				mu.Unlock()
 
-				res := RunPath(w, cfg, solver, entry, prefix)
+				res := RunPath(w, cfg, solver, oneshot, entry, prefix)
 
 				mu.Lock()
 				active--
